@@ -34,6 +34,9 @@ var treePlan = []planEntry{
 	{spaces.XList, 7, 8},
 	{spaces.XNul, 6, 7},
 	{spaces.XEol, 6, 7},
+	{spaces.XWs, 5, 6},
+	{spaces.XNest, 7, 8},
+	{spaces.XMlRef, 5, 6},
 }
 
 // forPlan runs f over every space of a plan at the tier's length.
